@@ -309,6 +309,12 @@ func (w *e1World) step(c *sim.Ctx, prop string, i int, o fsx.Op, env *fsx.Env, u
 		out.k.Data = ownerRE.ReplaceAllString(out.k.Data, " -:-")
 	}
 
+	if o.K == "RemoveAll" && out.a.Err != "ok" && out.k.Err != "ok" {
+		// RemoveAll "returns the first error it encounters", in a traversal order that is not specified:
+		// when both fail the errno is not compared.
+		out.k.Err = out.a.Err
+	}
+
 	if out.a.Err != out.k.Err {
 		out.violation = &sim.Violation{
 			Prop: prop, Class: "errno-differs", Sig: pre + " => want=" + out.k.Err + " got=" + out.a.Err,
@@ -337,6 +343,11 @@ func (w *e1World) step(c *sim.Ctx, prop string, i int, o fsx.Op, env *fsx.Env, u
 
 	w.snap = fsx.Snapshot(w.fs, "/", fsx.SnapOpts{Tops: topNamesE1, NoOwner: w.kind == "orefafs"})
 	as := w.snap.String()
+
+	if o.K == "RemoveAll" && out.a.Err != "ok" {
+		// a RemoveAll that fails removes what it can, in an order that is not specified: the caller resynchronises.
+		return out
+	}
 
 	if as != ks.Snap {
 		out.violation = &sim.Violation{
